@@ -334,6 +334,67 @@ func get(p *proc, id string) {
 	emit(event{"ev": "get", "via": p.id, "id": id, "err": es})
 }
 
+func writeItem(ds string, kind string, via *proc, k int) { writeItemN(ds, kind, via, k, 6) }
+
+func writeItemN(ds string, kind string, via *proc, k int, tries int) {
+	u, _ := uuid.FromString(ds)
+	emit(event{"ev": "wsubmit", "kind": kind, "id": k})
+	var err error
+	for try := 0; try < tries; try++ {
+		ctx, cancel := context.WithTimeout(context.Background(), 3*time.Second)
+		cl := pb.NewDataManagerClient(via.conn)
+		switch kind {
+		case "insert":
+			_, err = cl.Insert(ctx, &pb.InsertRequest{DatasetId: u.Bytes(), Id: wid(k), Value: []float32{float32(k), 1, 0}, Metadata: map[string]string{"k": fmt.Sprint(k)}})
+		case "update":
+			_, err = cl.Update(ctx, &pb.UpdateRequest{DatasetId: u.Bytes(), Id: wid(k), Value: []float32{float32(k), 2, 0}})
+		case "remove":
+			_, err = cl.Remove(ctx, &pb.RemoveRequest{DatasetId: u.Bytes(), Id: wid(k)})
+		}
+		cancel()
+		if err == nil || strings.Contains(err.Error(), "exists") || strings.Contains(err.Error(), "not found") {
+			break
+		}
+		time.Sleep(400 * time.Millisecond)
+	}
+	okv, es := 1, ""
+	if err != nil {
+		okv, es = 0, err.Error()
+	}
+	emit(event{"ev": "wack", "kind": kind, "id": k, "ok": okv, "err": es})
+}
+
+func findItems(ds string, ps []*proc, tag string) {
+	u, _ := uuid.FromString(ds)
+	for _, p := range ps {
+		if !p.checkAlive() {
+			continue
+		}
+		ids := []int{}
+		es := ""
+		for try := 0; try < 15; try++ {
+			ids, es = []int{}, ""
+			ctx, cancel := context.WithTimeout(context.Background(), 3*time.Second)
+			st, err := pb.NewSearchClient(p.conn).Search(ctx, &pb.SearchRequest{DatasetId: u.Bytes(), Query: []float32{0, 0, 0}, K: 200})
+			for err == nil {
+				var it *pb.SearchResultItem
+				it, err = st.Recv()
+				if err == nil {
+					ids = append(ids, int(it.GetId()[14])<<8|int(it.GetId()[15]))
+				}
+			}
+			cancel()
+			if err == io.EOF {
+				break
+			}
+			es = err.Error()
+			time.Sleep(500 * time.Millisecond)
+		}
+		sort.Ints(ids)
+		emit(event{"ev": "found", "via": p.id, "after": tag, "ids": ids, "err": es})
+	}
+}
+
 func wid(k int) []byte {
 	u := make([]byte, 16)
 	u[0], u[14], u[15] = 0x77, byte(k>>8), byte(k)
@@ -391,6 +452,56 @@ func main() {
 	}
 	_ = d2
 	switch scenario {
+	case "rejoin":
+		// a member is removed, stops, and later joins again under the same id (same directory, same address).
+		// A dataset whose partitions are spread over all nodes is written and searched through every node
+		// before and after, so that every node has talked to every other one
+		dd := create(a, 4, 2)
+		observe(ps, "create")
+		if dd != "" {
+			for k := 1; k <= 12; k++ {
+				writeItem(dd, "insert", ps[k%3], k)
+			}
+			findItems(dd, ps, "writes")
+		}
+		ctx, cancel := context.WithTimeout(context.Background(), 5*time.Second)
+		_, err := pb.NewNodesManagerClient(a.conn).RemoveNode(ctx, &pb.Node{Id: 3})
+		cancel()
+		okv, es := 1, ""
+		if err != nil {
+			okv, es = 0, err.Error()
+		}
+		emit(event{"ev": "left", "node": 3, "ok": okv, "err": es})
+		time.Sleep(1000 * time.Millisecond)
+		c.kill()
+		observe(ps, "leave")
+		create(a, 1, 2)
+		observe(ps, "create")
+		ok := c.start()
+		okv = 0
+		if ok {
+			okv = 1
+		}
+		emit(event{"ev": "joined", "node": 3, "addr": ":" + c.port, "ok": okv})
+		observe(ps, "join")
+		create(b, 2, 3)
+		observe(ps, "create")
+		if dd != "" {
+			// the re-joined node is reachable again for proxied writes and fan-out searches
+			time.Sleep(1500 * time.Millisecond)
+			for k := 13; k <= 18; k++ {
+				writeItemN(dd, "insert", ps[k%3], k, 1)
+			}
+			for i := 0; i < 3; i++ {
+				findItems(dd, ps, "rejoined")
+			}
+		}
+		b.kill()
+		b.start()
+		observe(ps, "restart")
+		if dd != "" {
+			findItems(dd, ps, "restart-one")
+		}
 	case "joincrash":
 		// the joining process dies inside the hand-shake: after the members have recorded it, before it
 		// reports itself ready.  It is started again with the same join list (as a supervisor would)
@@ -566,63 +677,8 @@ func main() {
 		if ds == "" {
 			break
 		}
-		write := func(kind string, via *proc, k int) {
-			u, _ := uuid.FromString(ds)
-			emit(event{"ev": "wsubmit", "kind": kind, "id": k})
-			var err error
-			for try := 0; try < 6; try++ {
-				ctx, cancel := context.WithTimeout(context.Background(), 3*time.Second)
-				cl := pb.NewDataManagerClient(via.conn)
-				switch kind {
-				case "insert":
-					_, err = cl.Insert(ctx, &pb.InsertRequest{DatasetId: u.Bytes(), Id: wid(k), Value: []float32{float32(k), 1, 0}, Metadata: map[string]string{"k": fmt.Sprint(k)}})
-				case "update":
-					_, err = cl.Update(ctx, &pb.UpdateRequest{DatasetId: u.Bytes(), Id: wid(k), Value: []float32{float32(k), 2, 0}})
-				case "remove":
-					_, err = cl.Remove(ctx, &pb.RemoveRequest{DatasetId: u.Bytes(), Id: wid(k)})
-				}
-				cancel()
-				if err == nil || strings.Contains(err.Error(), "exists") || strings.Contains(err.Error(), "not found") {
-					break
-				}
-				time.Sleep(400 * time.Millisecond)
-			}
-			okv, es := 1, ""
-			if err != nil {
-				okv, es = 0, err.Error()
-			}
-			emit(event{"ev": "wack", "kind": kind, "id": k, "ok": okv, "err": es})
-		}
-		find := func(tag string) {
-			u, _ := uuid.FromString(ds)
-			for _, p := range ps {
-				if !p.checkAlive() {
-					continue
-				}
-				ids := []int{}
-				es := ""
-				for try := 0; try < 15; try++ {
-					ids, es = []int{}, ""
-					ctx, cancel := context.WithTimeout(context.Background(), 3*time.Second)
-					st, err := pb.NewSearchClient(p.conn).Search(ctx, &pb.SearchRequest{DatasetId: u.Bytes(), Query: []float32{0, 0, 0}, K: 200})
-					for err == nil {
-						var it *pb.SearchResultItem
-						it, err = st.Recv()
-						if err == nil {
-							ids = append(ids, int(it.GetId()[14])<<8|int(it.GetId()[15]))
-						}
-					}
-					cancel()
-					if err == io.EOF {
-						break
-					}
-					es = err.Error()
-					time.Sleep(500 * time.Millisecond)
-				}
-				sort.Ints(ids)
-				emit(event{"ev": "found", "via": p.id, "after": tag, "ids": ids, "err": es})
-			}
-		}
+		write := func(kind string, via *proc, k int) { writeItem(ds, kind, via, k) }
+		find := func(tag string) { findItems(ds, ps, tag) }
 		for k := 1; k <= 24; k++ {
 			write("insert", ps[k%3], k)
 		}
